@@ -9,7 +9,7 @@
    string values that look like a typed value ("int:..", "float:..", "bool:true/false" in any
    case, "NoneType:") and a first parameter named "json". *)
 From Common Require Import Prelude.
-From C19 Require Import Model Lemmas Reader.
+From C19 Require Import Model Lemmas Reader Session Json Pickle.
 Open Scope Z_scope.
 
 Theorem roundtrip_partial :
@@ -81,3 +81,148 @@ Theorem dispatch_order : forall ms,
   map snd (filter (fun e : bool * Z => fst e) (dispatch_run ms)) = map snd (filter (fun m : bool * Z => fst m) ms).
 Proof. exact dispatch_order_l. Qed.
 Print Assumptions dispatch_order.
+
+(* ================================================================================================== *)
+(* Histories on one connection (Session.v).  [wire m] is what is on the wire for message m (the line
+   written by send(), with "&bytes=N\n<N raw bytes>" when a payload is attached); [sm_ok] = the guards of
+   roundtrip_partial plus [no_marker_keys] (no parameter but the first is called "bytes"; JSON form: the
+   json.dumps text has no raw newline and no '&').  However the concatenated stream of ANY number of
+   such messages - the same line may recur with and without payload - is cut into reads, read_message
+   returns exactly the messages sent, in order, each with its own parameters and its own payload. *)
+Theorem session_roundtrip_partial :
+  forall fo ms chunks, Forall (sm_ok fo) ms -> concat chunks = flat_map wire ms ->
+    session_run fo VAsyncio chunks = (map expected ms, false).
+Proof. exact session_roundtrip_partial_l. Qed.
+Print Assumptions session_roundtrip_partial.
+
+(* BCPClientSocket: the same, for commands other than hello/goodbye (which the client keeps for itself) *)
+Theorem session_roundtrip_mpf_partial :
+  forall fo ms chunks, Forall (sm_ok fo) ms -> Forall not_client_cmd ms -> concat chunks = flat_map wire ms ->
+    session_run fo VMpf chunks = (map expected ms, false).
+Proof. exact session_roundtrip_mpf_partial_l. Qed.
+Print Assumptions session_roundtrip_mpf_partial.
+
+(* BCPClientSocket, histories that also contain hello (any parameters, payload) and bare goodbye messages: exactly the
+   other messages are returned, in order *)
+Theorem session_roundtrip_mpf_filter :
+  forall fo ms chunks, Forall (sm_ok fo) ms -> Forall goodbye_bare ms -> concat chunks = flat_map wire ms ->
+    session_run fo VMpf chunks = (map expected (filter (fun m => negb (kept_by_client m)) ms), false).
+Proof. exact session_roundtrip_mpf_filter_l. Qed.
+Print Assumptions session_roundtrip_mpf_filter.
+
+(* the full statement (without no_marker_keys) is false: known finding marker-in-line *)
+Theorem marker_in_line_refuted :
+  exists ms,
+    Forall (fun m => match m with
+                     | SM cmd (SFlat kw) _ =>
+                         forallb cmd_char cmd = true /\ NoDup (map fst kw) /\
+                         Forall (fun kv => Forall is_byte (fst kv) /\ value_ok all_floats_ok (snd kv)) kw /\
+                         first_key_not_json kw
+                     | _ => False end) ms /\
+    session_run all_floats_ok VAsyncio [flat_map wire ms] <> (map expected ms, false).
+Proof. exact marker_in_line_refuted_l. Qed.
+Print Assumptions marker_in_line_refuted.
+
+(* an encoded line contains the payload marker "&bytes=" only if a parameter after the first is called "bytes" *)
+Theorem encode_no_marker :
+  forall cmd kw, forallb cmd_char cmd = true -> Forall pair_ok kw -> no_marker_keys kw ->
+    find_marker (encode cmd kw) = None.
+Proof. exact encode_no_marker_l. Qed.
+Print Assumptions encode_no_marker.
+
+(* JSON form: the line contains the marker exactly when the json.dumps text does *)
+Theorem json_line_marker_iff :
+  forall cmd t, forallb cmd_char cmd = true ->
+    (find_marker (encode_json cmd t) = None <-> find_marker t = None).
+Proof. exact json_line_marker_iff_l. Qed.
+Print Assumptions json_line_marker_iff.
+
+(* no memory between messages: what is delivered for a framed message is a function of that message alone
+   (in particular a line decodes to the same, fresh value every time it recurs) *)
+Theorem delivery_memoryless :
+  forall fo rs,
+    forallb (fun m => match m with Msg line _ => negb (has_err (decode fo line)) end) rs = true ->
+    deliver_all fo VAsyncio rs = (map (deliver1 fo) rs, false).
+Proof. exact delivery_memoryless_l. Qed.
+Print Assumptions delivery_memoryless.
+
+(* reader -> _receive_loop -> process_bcp_message -> registered handler: the handlers are called with exactly
+   the messages sent to registered commands, in order, parameters and payload included - for every chunking;
+   no configuration (logging) parameter occurs in the model *)
+Theorem handler_receives_sent :
+  forall okf registered in_events ms lens posts,
+    let fo := fun t => mem_key t okf in
+    Forall (sm_ok fo) ms -> Forall not_client_cmd ms ->
+    fst (handler_run (okf, (registered, in_events), ms, lens, posts)) =
+    let hs := flat_map (handle registered in_events) (map expected ms) in
+    ((filter is_call hs, filter (fun h => negb (is_call h)) hs), false).
+Proof. exact handler_receives_sent_l. Qed.
+Print Assumptions handler_receives_sent.
+
+(* ... where a registered command's callback gets exactly the message sent (parameters and payload) ... *)
+Theorem handle_registered :
+  forall registered in_events m,
+    sm_cmd m <> s_trigger -> mem_key (sm_cmd m) registered = true ->
+    handle registered in_events (expected m) = [HCall (expected m)].
+Proof. exact handle_registered_l. Qed.
+Print Assumptions handle_registered.
+
+(* ... and trigger?name=ev&<params> posts ev with exactly <params>, the payload, and _from_bcp=True *)
+Theorem trigger_event :
+  forall registered in_events ev kw p,
+    mem_key ev in_events = true -> ~ In s_name (map fst kw) ->
+    handle registered in_events (expected (SM s_trigger (SFlat ((s_name, VStr ev) :: kw)) p)) =
+    [HEvent ev (map (fun kv => (fst kv, DVal (snd kv))) kw ++ [(s_frombcp, DVal (VBool true))]) (attach p)].
+Proof. exact trigger_event_l. Qed.
+Print Assumptions trigger_event.
+
+(* The guards of roundtrip_partial are exact.  For a command name in [a-z0-9_]*, distinct keys, byte strings and
+   float texts float() accepts:  decode (encode cmd kw) = (cmd, kw)  IF AND ONLY IF  the first key is not "json"
+   and no string value satisfies the decidable predicate [looks_typed] (starts with "int:" or "float:", equals
+   "bool:true"/"bool:false" in any letter case, or equals "NoneType:"). *)
+Theorem roundtrip_exact :
+  forall fo cmd kw,
+    forallb cmd_char cmd = true -> NoDup (map fst kw) -> bytes_ok fo kw ->
+    (decode fo (encode cmd kw) = DKw cmd (map (fun kv => (fst kv, DVal (snd kv))) kw)
+     <-> first_key_not_json kw /\ no_typed_strings kw).
+Proof. exact roundtrip_exact_l. Qed.
+Print Assumptions roundtrip_exact.
+
+Theorem str_value_roundtrip_iff :
+  forall fo s, decode_value fo (typed_text (VStr s)) = DVal (VStr s) <-> looks_typed s = false.
+Proof. exact str_value_roundtrip_iff_l. Qed.
+Print Assumptions str_value_roundtrip_iff.
+
+(* ================================================================================================== *)
+(* JSON form with the text printed by the model (Json.v): nested lists/dicts, None, bool, int, float text, non-ASCII
+   strings (escaped \uXXXX, surrogate pairs), key order = dict order. *)
+Theorem json_tree_roundtrip :
+  forall fo cmd kw, forallb cmd_char cmd = true ->
+    decode fo (encode_json cmd (jdumps (JDict kw))) = DJson cmd (jdumps (JDict kw)).
+Proof. exact json_tree_roundtrip_l. Qed.
+Print Assumptions json_tree_roundtrip.
+
+(* json.dumps never emits a raw newline, and emits '&' only from a string (key or value) that contains '&' *)
+Theorem jdumps_no_newline_no_amp :
+  forall v, jv_clean v = true -> forallb wsafe (jdumps v) = true.
+Proof. exact jdumps_wsafe. Qed.
+Print Assumptions jdumps_no_newline_no_amp.
+
+(* hence a JSON-form message whose strings are free of '&' is in the domain of session_roundtrip_partial *)
+Theorem json_tree_message_ok :
+  forall fo cmd kw p, forallb cmd_char cmd = true -> jv_clean (JDict kw) = true ->
+    sm_ok fo (SM cmd (SJson (jdumps (JDict kw))) p).
+Proof. exact json_tree_message_ok_l. Qed.
+Print Assumptions json_tree_message_ok.
+
+(* ================================================================================================== *)
+(* bcp_pickle_client.py with fixes/C19-pickle-client-loads-dumps.patch (Pickle.v) *)
+Theorem pickle_chunking_independent :
+  forall st chunks, pkfeed_chunks st chunks = pkfeed st (concat chunks).
+Proof. exact pickle_chunking_independent_l. Qed.
+Print Assumptions pickle_chunking_independent.
+
+Theorem pickle_reassembly :
+  forall ps lens, Forall pk_ok ps -> snd (pickle_run (ps, lens)) = ps.
+Proof. exact pickle_reassembly_l. Qed.
+Print Assumptions pickle_reassembly.
